@@ -15,7 +15,7 @@ R == Log[t]
 IsSpec == R.src = "spec"
 \* the part of the model a verdict needs, computed once per trace
 Model(r) ==
-    IF r.kind = "msg"
+    IF r.kind \in {"msg", "optm"}
     THEN (IF r.src = "spec" THEN Read(r.w)
           ELSE [short |-> Len(r.w) < 12, tc |-> Len(r.w) >= 12 /\ HasBit(Rd16(r.w, 2), TC)])
     ELSE IF r.src # "spec" THEN "free"
@@ -41,10 +41,13 @@ Bound(c) == Check(t, l, "InputBinding", (l = 1 /\ IsSpec) => c)
 
 TMsg ==
     /\ E.op = "msg"
-    /\ Bound(R.w = Wire(kind, lay, post))
+    /\ Bound(R.w = Wire(kind, lay, post) /\ (kind = "optm" => R.cur = OptmCur /\ R.len = Len(OptmRdata(lay))))
     /\ Check(t, l, "OutcomeSet", MsgAllowed(pm, E.opts, IsSpec /\ (pm.short \/ ~Signed(pm)), O))
     /\ Check(t, l, "Verdict", IsSpec => MsgVerdictOk(pm, E.opts, O))
-    /\ Check(t, l, "CoeErrorFamily", \A i \in 1..Len(E.errs) : "DNSException" \in ToSetOf(E.errs[i].tags))
+    \* what continue_on_error records is what a strict reading would have raised: the
+    \* format-error family when the input is known to carry no TSIG record
+    /\ Check(t, l, "CoeErrorFamily", \A i \in 1..Len(E.errs) :
+            (IF IsSpec /\ (pm.short \/ ~Signed(pm)) THEN "FormError" ELSE "DNSException") \in ToSetOf(E.errs[i].tags))
     /\ Check(t, l, "Bookkeeping", (IsSpec /\ E.opts[4] = 1 /\ O = {"ok"}) =>
                                       Bookkeeping(pm, E.opts, [i \in 1..Len(E.errs) |-> E.errs[i].off]))
     /\ Check(t, l, "Records", (IsSpec /\ O = {"ok"} /\ AllDecided(pm)) =>
@@ -57,8 +60,14 @@ TNameW ==
     /\ Check(t, l, "OutcomeSet", OkOr(O, WireSet))
     /\ Check(t, l, "Verdict", Matches(pm))
     /\ Render /\ Adv
+\* the OPT RDATA of an optm input read on its own: the format-error family only
+TOptRd ==
+    /\ kind = "optm" /\ E.op = "rdw"
+    /\ Check(t, l, "OutcomeSet", OkOr(O, WireSet))
+    /\ Check(t, l, "Verdict", nf = 0 => O = {"ok"})
+    /\ Render /\ Adv
 TSpecW ==
-    /\ E.op \in {"rdw", "optw"}
+    /\ kind \in {"rdw", "optw"} /\ E.op \in {"rdw", "optw"}
     /\ Bound(R.w = SpecBytes(lay) /\ R.len = lay.len /\ R.cur = Len(NPrefix))
     /\ Check(t, l, "OutcomeSet", OkOr(O, WireSet))
     /\ Check(t, l, "Verdict", Matches(pm))
@@ -70,7 +79,7 @@ TNameT ==
     /\ Check(t, l, "Verdict", Matches(pm))
     /\ Render /\ Adv
 TText ==
-    /\ E.op \in {"rdt", "ttl"}
+    /\ E.op \in {"rdt", "ttl"}       \* (kinds rdt, rdg, ttl)
     /\ Bound(R.s = Text(lay))
     /\ Check(t, l, "OutcomeSet", OkOr(O, TextSet))
     /\ Check(t, l, "Verdict", Matches(pm))
@@ -93,6 +102,6 @@ TMsgT ==
     /\ Render /\ Adv
 
 TraceNext == /\ l <= Len(Ev(t))
-             /\ (TMsg \/ TNameW \/ TSpecW \/ TNameT \/ TText \/ TZone \/ TMsgT)
+             /\ (TMsg \/ TNameW \/ TOptRd \/ TSpecW \/ TNameT \/ TText \/ TZone \/ TMsgT)
 Accepted == Accepting(t, l)
 =============================================================================
